@@ -1,6 +1,9 @@
 // C08 conformance driver: random data sources (all feature kinds / storage types, missing values) behind real dataset_t
 // objects with random generator stacks; random drop/undrop/shuffle/unshuffle histories; after every operation all views are
 // read back for a random sample list and recorded for re-computation by TLC (DatasetTrace.tla).
+// Generators: the four identity generators (all features / a subset), the pairwise product (all pairs / pairs of a subset / two lists).
+// Views: direct calls with fresh or re-used buffers (also for no sample at all), the loops of select_iterator_t (compared with the
+// direct calls), invalid sample / feature indices through every entry point.
 //   dataset_driver <out.ndjson> <seed> <cases>
 #include "tabledata.h"
 #include <algorithm>
@@ -342,12 +345,8 @@ void dataset_case(vt::Rng& rng, int64_t icase)
                 }
                 else
                 {
-                    // TWO-LIST DOMAIN: only lists with max(features1) <= min(features2). With a feature of the first list behind one
-                    // of the second list make_pairwise (src/generator/pairwise_base.cpp:92-104) swaps the row indices of the two
-                    // mappings: wrong pairs, heap overflow for lists of different sizes (reported; e.g. {4} x {0,1,2}).
-                    const auto middle  = rng.range(0, ninputs - 1);
-                    auto       subset1 = random_subset(rng, middle + 1, 5), subset2 = random_subset(rng, ninputs - middle, 5);
-                    subset2.array() += middle;
+                    // any two lists (overlapping or not, any order); a pair of features appears once, in either order
+                    const auto subset1 = random_subset(rng, ninputs, 5), subset2 = random_subset(rng, ninputs, 5);
                     dataset.add<pairwise_product_generator_t>(subset1, subset2);
                     expect_products(subset1, subset2);
                 }
@@ -798,8 +797,15 @@ void dataset_case(vt::Rng& rng, int64_t icase)
         std::string via;
         try
         {
-            switch (rng.range(0, 5))
+            switch (rng.range(0, 6))
             {
+            case 6:
+            {
+                // the sample map of a feature (shuffled or not)
+                via = "shuffled";
+                (void)dataset.shuffled(rng.range(0, dataset.features() - 1), samples);
+                break;
+            }
             case 0:
             {
                 via = "flatten";
@@ -978,7 +984,31 @@ void dataset_case(vt::Rng& rng, int64_t icase)
         vt::put(vt::J("Bad").s("what", "feature").i("index", findex).b("threw", threw).s("via", via));
     };
 
+    // shuffled(feature, samples) of a feature that is not shuffled: as many indices as given, all valid
+    std::vector<char> is_shuffled(static_cast<size_t>(dataset.features()), 0);
+    const auto not_shuffled = [&]()
+    {
+        std::vector<tensor_size_t> candidates;
+        for (tensor_size_t k = 0; k < dataset.features(); ++k)
+        {
+            if (is_shuffled[static_cast<size_t>(k)] == 0)
+            {
+                candidates.push_back(k);
+            }
+        }
+        if (candidates.empty())
+        {
+            return;
+        }
+        const auto f       = rng.pick(candidates);
+        const auto samples = random_samples(rng, n, true);
+        const auto out     = dataset.shuffled(f, samples);
+        vt::put(vt::J("Unshuffled").i("f", f).a("samples", std::vector<int64_t>(samples.begin(), samples.end())).a(
+            "out", std::vector<int64_t>(out.begin(), out.end())));
+    };
+
     record_views();
+    not_shuffled();
     const auto nops = rng.range(0, 8);
     for (int64_t i = 0; i < nops; ++i)
     {
@@ -988,10 +1018,12 @@ void dataset_case(vt::Rng& rng, int64_t icase)
         {
             dataset.drop(f);
             vt::put(vt::J("Op").s("op", "drop").i("f", f));
+            is_shuffled[static_cast<size_t>(f)] = 0;
         }
         else if (op <= 7)
         {
             dataset.shuffle(f);
+            is_shuffled[static_cast<size_t>(f)] = 1;
             const auto perm = dataset.shuffled(f, arange(0, n));
             vt::put(vt::J("Op").s("op", "shuffle").i("f", f).a("perm", std::vector<int64_t>(perm.begin(), perm.end())));
             const auto samples = random_samples(rng, n, true);
@@ -1003,13 +1035,19 @@ void dataset_case(vt::Rng& rng, int64_t icase)
         {
             dataset.undrop();
             vt::put(vt::J("Op").s("op", "undrop"));
+            std::fill(is_shuffled.begin(), is_shuffled.end(), 0);
         }
         else
         {
             dataset.unshuffle();
             vt::put(vt::J("Op").s("op", "unshuffle"));
+            std::fill(is_shuffled.begin(), is_shuffled.end(), 0);
         }
         record_views();
+        if (rng.coin(1, 2))
+        {
+            not_shuffled();
+        }
         if (rng.coin(1, 3))
         {
             bad_index();
